@@ -237,6 +237,41 @@ def r3(ctx):
     else:
         ctx.bad("C18.R3", f, f.node, "getRoot is no longer hbits + pbits of the "
                 "root (%s)" % p, text_="getRoot")
+    # element footprints by kind: coord -> cbits, payload -> pbits, elem -> both
+    # (read case by case on the constant `type_`)
+    from .. import symcase
+    ge = ctx.func(F + "getElem")
+    if len(ge.params) == 3:
+        rk, ty = ge.params[1], ge.params[2]
+
+        def consts(t):
+            if isinstance(t, ast.Compare) and len(t.ops) == 1 and \
+                    isinstance(t.left, ast.Constant) and \
+                    isinstance(t.comparators[0], ast.Constant) and \
+                    isinstance(t.ops[0], (ast.Eq, ast.NotEq)):
+                same = t.left.value == t.comparators[0].value
+                return same if isinstance(t.ops[0], ast.Eq) else not same
+            return None
+        S = "self.spec[%s]['%%s']" % rk
+        table = {"coord": {(S % "cbits",): 1}, "payload": {(S % "pbits",): 1},
+                 "elem": {(S % "cbits",): 1, (S % "pbits",): 1}}
+        for lit, want in table.items():
+            outs = symcase.Evaluator(ctx, consts).walk(
+                ge, ge.body, {ty: ast.Constant(value=lit)})
+            outs = [o for o in outs if o.returned and isinstance(o.ret_stmt, ast.Return)]
+            got = poly(ctx, ge, outs[0].ret) if len(outs) == 1 and outs[0].ret is not None \
+                and not outs[0].opaque else None
+            if got == want:
+                ctx.ok("C18.R3", ge, outs[0].ret_stmt, "getElem(rank, %r) = %s"
+                       % (lit, " + ".join(sorted(k[0].split("'")[-2] for k in want))),
+                       text_="getElem %s" % lit)
+            else:
+                ctx.bad("C18.R3", ge, ge.node, "getElem(rank, %r) must be %s of the "
+                        "rank; it gives %s" % (
+                            lit, " + ".join(sorted(k[0].split("'")[-2] for k in want)),
+                            got if got is not None else "no single value (the case is "
+                            "not reached, or falls through to the assert)"),
+                        text_="getElem %s" % lit)
     # sub-tree
     f = ctx.func(F + "getSubTree")
     wl = [n for n in f.own_nodes() if isinstance(n, ast.While)]
@@ -253,6 +288,28 @@ def r3(ctx):
         ctx.bad("C18.R3", f, w, "the sub-tree traversal does not add the "
                 "footprint of every popped fiber exactly once",
                 text_="getSubTree accumulate")
+    # the sum starts at 0 and the loop runs exactly while fibers are waiting
+    if len(acc) == 1 and len(pops) == 1:
+        tv = text(acc[0][0].target)
+        lst = text(pops[0].func.value).replace(" ", "")
+        inits = [n for n in f.own_nodes() if isinstance(n, ast.Assign)
+                 and text(n.targets[0]) == tv and not is_within(n, w)]
+        ln = "len(%s)" % lst
+        nonempty = {("truth", lst, True), ("truth", ln, True), pat.A("<", "0", ln),
+                    pat.A("!=", ln, "0"), pat.A("<=", "1", ln)}
+        at = pat.catom(ctx, f, w.test, True, False)
+        if len(inits) == 1 and isinstance(inits[0].value, ast.Constant) and \
+                inits[0].value.value == 0 and not isinstance(inits[0].value.value, bool) \
+                and at in nonempty:
+            ctx.ok("C18.R3", f, w, "sum from 0 while the work list is not empty",
+                   text_="getSubTree work list")
+        else:
+            ctx.bad("C18.R3", f, w, "the sub-tree sum must start at 0 (starts at %s) and "
+                    "the traversal run exactly while `%s` is not empty (runs while "
+                    "`%s`): the footprint is off by a constant, or the loop pops "
+                    "from an empty list" % ([text(i.value) for i in inits] or "nothing",
+                                            lst, text(w.test)),
+                    text_="getSubTree work list")
     it_defs = [n for n in _walk(w.body) if isinstance(n, ast.Assign)
                and text(n.targets[0]) == "iter_"]
     got = {}
